@@ -16,51 +16,97 @@ NOT_USER_LOCALS = {
 def freevar_protocol(rep):
     """(b) every route by which description text becomes Python code inside a rule function is known
     to the free-variable protocol: functionalize() (spill helpers and argument closures) passes
-    exactly freevars(), which SymbolCounter computes from defines_local / has_params / is_reference."""
+    exactly freevars(), which SymbolCounter computes from defines_local / has_params / is_reference.
+
+    Decided on what is emitted, not on how the generator is written: every string-valued constructor
+    argument of every expression class is given a marker identifier; if the marker comes out as a
+    name that the emitted skeleton *reads* although freevars() of the object does not report it, or
+    as a name the skeleton *binds* although the class does not declare a binding (defines_local),
+    the protocol does not know that piece of description text."""
+    from .. import skeleton as SK, metaeval as M
+    MARK = 'zz_fv_marker'
+    w = SK.World()
     n = 0
     keys = set()
-    for rel in load.expression_files():
-        tree = load.parse(rel)
-        for cls in [c for c in tree.body if isinstance(c, ast.ClassDef)]:
-            attrs = {}
-            for st in cls.body:
-                if isinstance(st, ast.Assign):
-                    for t in st.targets:
-                        if isinstance(t, ast.Name) and isinstance(st.value, ast.Constant):
-                            attrs[t.id] = st.value.value
-            for m in cls.body:
-                if not isinstance(m, ast.FunctionDef) or m.name in ('__init__', '__str__', 'complain', 'functionalize',
-                                                                     'error_func'):
+    done = set()
+    for K in sorted(w.classes()):
+        if K in ('Call', 'Class', 'KeywordArg', 'Rule'):
+            continue
+        params = SK.CTOR_PARAMS.get(K, [])
+        tried = {}
+        for cfg in SK.enumerate_configs(w, K, 'quick'):
+            if cfg.ctx:
+                continue
+            for i, prm in enumerate(params):
+                if prm.startswith('*') or tried.get(prm, 0) >= 6:
                     continue
-                for node in ast.walk(m):
-                    if not (isinstance(node, ast.Call) and isinstance(node.func, ast.Name) and node.func.id == 'Code'
-                            and len(node.args) == 1):
+                # current value of this parameter in the configuration
+                if prm in cfg.kwargs:
+                    cur, where_ = cfg.kwargs[prm], 'kw'
+                elif i < len(cfg.args):
+                    cur, where_ = cfg.args[i], 'arg'
+                else:
+                    continue
+                variants = []
+                if cur is None or isinstance(cur, (str, int)) and not isinstance(cur, bool):
+                    variants.append((MARK, prm))
+                elif isinstance(cur, list) and cur and all(x is None or isinstance(x, str) for x in cur):
+                    variants.append(([MARK] + list(cur[1:]), '<member name>' if K == 'Seq' else prm))
+                for val, attr in variants:
+                    tried[prm] = tried.get(prm, 0) + 1
+                    c2 = SK.Config(K, list(cfg.args), dict(cfg.kwargs), cfg.children, dict(cfg.post), False,
+                                   label=f'{K}:{prm}=marker')
+                    if where_ == 'kw':
+                        c2.kwargs[prm] = val
+                    else:
+                        c2.args[i] = val
+                    try:
+                        b = w.build(c2)
+                    except (SK.Rejected, M.MetaRaise, AnalysisError):
                         continue
-                    a = node.args[0]
-                    attr = None
-                    if isinstance(a, ast.Attribute) and isinstance(a.value, ast.Name) and a.value.id == 'self':
-                        attr = a.attr
-                    elif isinstance(a, ast.Name) and a.id in ('name',) and cls.name == 'Seq':
-                        attr = '<member name>'
-                    if attr is None:
+                    except Exception:
+                        continue
+                    if b.tree is None:
+                        continue
+                    loads = any(isinstance(x, ast.Name) and x.id == MARK and isinstance(x.ctx, ast.Load)
+                                for x in ast.walk(b.tree))
+                    stores = any(isinstance(x, ast.Name) and x.id == MARK and isinstance(x.ctx, ast.Store)
+                                 for x in ast.walk(b.tree))
+                    if not loads and not stores:
                         continue
                     n += 1
-                    key = (cls.name, attr)
+                    key = (K, attr)
                     keys.add(key)
+                    try:
+                        fv = set(w.call(b.obj, 'freevars') or ())
+                    except Exception:
+                        fv = set()
+                    binder = False
+                    try:
+                        binder = bool(w.it.getattr(b.obj, 'defines_local'))
+                    except Exception:
+                        binder = False
+                    reference = MARK in fv
+                    # a reference that the translator still has to classify (Ref before _update_local_references)
+                    if K == 'Ref' and not cfg.post.get('is_local'):
+                        reference = True
+                    ok = (not loads or reference or (stores and binder)) and (not stores or binder)
                     if key in NOT_USER_LOCALS:
-                        rep.oblige(True)
+                        ok = True
+                    if (key, ok) in done:
                         continue
-                    binder = attrs.get('defines_local') is True and attr == 'name'
-                    reference = attrs.get('is_reference') is True and attr in ('name', 'resolved')
-                    rep.oblige(binder or reference)
-                    if not (binder or reference):
-                        kind = 'binds a local' if attr == '<member name>' else 'pastes description text that may mention bound names'
-                        rep.add(Finding('FREEVAR-visible', f'{rel}:{cls.name}', attr,
-                                        f'{cls.name}.{m.name} emits `Code({ast.unparse(a)})` verbatim - it {kind} - but the '
+                    done.add((key, ok))
+                    rep.oblige(ok)
+                    if not ok:
+                        rel = b.obj.cls.module.rel
+                        kind = 'binds a local' if stores and not binder else \
+                            'pastes description text that may mention bound names'
+                        rep.add(Finding('FREEVAR-visible', f'{rel}:{K}', attr,
+                                        f'{K} emits its `{prm}` verbatim into the rule function - it {kind} - but the '
                                         f'class neither declares the binding (defines_local/has_params) nor reports '
                                         f'a reference (is_reference): freevars() does not see the name, so a helper '
                                         f'function or argument closure built around it does not receive it (NameError)',
-                                        f'{rel}:{cls.name}.{m.name} (line {node.lineno})'))
+                                        f'{rel}:{K}._compile'))
     rep.count('verbatim emission sites examined', n)
     rep.count('distinct (class, attribute) pairs emitted verbatim', len(keys))
     rep.floor('distinct (class, attribute) pairs emitted verbatim', len(keys), 5)
